@@ -14,6 +14,26 @@
         psb.tokenkey <b> <sigLen|none> <ok|err>                          (signing key's modulus length; RSA verdict)
         zlib.decode <b> <ok|err> | brotli.decode <b> <ok|err>            (verdict of the third-party decoder)
         apcb.parse <b> -> ok:n=<tokens>  |  cbfs.image <img> -> ok:n=<records>
+        manifest.read <T> <b> -> ok:n=<bytes counted by ReadFrom>        T = qualified name of one of the 33 generated
+                                                                         structures (cbnt.Key, cbntbootpolicy.Manifest …);
+                                                                         the layout is built from Gen/Manifest.lean
+        manifest.chipset <b>  -> ok:n=<bytes counted> | err                 cbnt.ParseChipsetACModuleInformation
+        manifest.memsize <T>  -> ok:<unsafe.Sizeof(T{})>                 (what make([]T, count) allocates per item)
+        amd.firmware <region> <pre> <total> -> err | ok:efs=<off>;p1=<off>+<len>/<entries>;p2=…;b1=…;b2=…;x=<r,r,…>
+              the region placed at `pre` in a zero image of `total` bytes (as harness/props/c20/ep_amd.go does);
+              ParseAMDFirmware, then Extract / Patch of PSP types 0,0x12,0x50,0x0a and BIOS types 0x62,5,7 (instances 0,1)
+              on both levels and GetEntries(0x12, 0x62) on the four directories: length | E (error) | S (patch skipped)
+        fit.inject <img> <headersOffset> <0|1> -> err (GetEntries failed) | ok:<fnv> | err:<fnv>
+              GetEntries, RecalculateHeaders when the flag is 1 (going on after its error), Inject into a copy of the
+              image; <fnv> = FNV-1a (64 bit, decimal) of the image afterwards
+        fit.record <b> -> v=E | v=<1|2>;km=<ok:n=..|err>;bpm=<ok:n=..|err>
+              bgheader.DetectBGV, then ReadFrom of the key manifest and of the boot policy manifest of that version
+        amd.getkeys <region> <total> <level> <ok|err> -> err (no EFS) | k:<ok|err>;r=<n|E>;rk=<ok|E|->;d=<n|E|->;v=<reach|nokey|invalid|E|->
+              the region padded with zeros to `total` bytes; ParseAMDFirmware, GetKeys(level) with every signature
+              check answering the given verdict (k), and the stages GetKeys is made of, each on its own: the root-key
+              entry, NewRootKey, the key-database entry, newPSPBinary + getSignedBlob with the root key as key set
+        amd.tables <b> -> t:<6 bits>    ParsePSP, ParseBIOS, FindPSP, FindBIOS, ParseEFS, FindEFS directly on the bytes
+              the BIOS pre-check uses the regenerated constant Gen.AmdManifest.BIOSDirectoryTableEntrySize
   Every model runs with the budget of the theorems, 64·|input| + 16 MiB.
 -/
 import Driver.Common
@@ -26,6 +46,14 @@ import FianoModel.Psb.Total
 import FianoModel.Compression.Total
 import FianoModel.Total.Apcb
 import FianoModel.Total.Cbfs
+import FianoModel.Total.Manifest
+import FianoModel.Manifest.Build
+import FianoModel.Gen.Manifest
+import FianoModel.Gen.C20MfCbnt
+import FianoModel.Total.AmdEntries
+import FianoModel.Total.AmdKeys
+import FianoModel.Gen.AmdManifest
+import FianoModel.Fit.TotalInject
 
 open Fiano Fiano.GoM Driver
 
@@ -51,7 +79,178 @@ def parseKeys (s : String) : Option (List PsbTotal.KeyInfo) :=
 def parseVerdict (s : String) : Option (Bytes → Option Bytes) :=
   if s = "ok" then some (fun _ => some []) else if s = "err" then some (fun _ => none) else none
 
+/-! the 33 manifest layouts, built from the regenerated declarations (as Driver/C15.lean does) -/
+
+def mfSrc : Manifest.Sources :=
+  { decls := Fiano.Gen.Manifest.decls, countExprs := Fiano.Gen.Manifest.countExprs,
+    helpers := Fiano.Gen.Manifest.rehashHelpers }
+
+def mfStrictOf (q : String) : Bool :=
+  match Fiano.Gen.Manifest.codecs.find? (·.name == q) with
+  | some c => match c.container with | some g => g.strictOrder | none => true
+  | none => true
+
+inductive MfTy | s (S : Manifest.SDef) | c (C : Manifest.Container)
+
+def mfTable : List (String × MfTy) :=
+  Fiano.Gen.Manifest.structNames.filterMap fun q =>
+    match Manifest.sdefOf mfSrc 8 q with
+    | some S => some (q, .s S)
+    | none => match Manifest.containerOf mfSrc 8 q (mfStrictOf q) with
+      | some C => some (q, .c C)
+      | none => none
+
+/-! pkg/amd/manifest + the entry functions of pkg/amd/psb -/
+
+def amdC : Nat := Fiano.Gen.AmdManifest.BIOSDirectoryTableEntrySize
+
+def amdImage (region : Bytes) (pre total : Nat) : Bytes :=
+  let pre := if pre > 2097152 then 0 else pre
+  let total := if total > 2097152 then 2097152 else total
+  let total := if total < pre + region.length then pre + region.length else total
+  List.replicate pre 0 ++ region ++ List.replicate (total - pre - region.length) 0
+
+def showTab {α : Type} (r : Option (α × Amd.Range)) (n : α → Nat) : String :=
+  match r with
+  | none => "-"
+  | some (t, rg) => s!"{rg.off}+{rg.len}/{n t}"
+
+def showRes (r : Option Nat) : String :=
+  match r with
+  | none => "E"
+  | some n => toString n
+
+def patchLen (size : Nat) : Nat := if size > 1048576 then 16 else size
+
+open AmdTotal in
+/-- the pipeline of ep_amd.go `amd.firmware`, in its order -/
+def amdPipelineG (B : Nat) (img : Bytes) : GoM String := do
+  let fw ← discoverG amdC B img
+  let mut out : List String := []
+  for level in [1, 2] do
+    for id in [0x00, 0x12, 0x50, 0x0a] do
+      let r ← runOpG B img fw (.extractPSP level id)
+      out := out ++ [showRes r]
+      let e ← getPSPEntryG B fw level id
+      match e with
+      | none => out := out ++ ["S"]
+      | some e =>
+        let r ← runOpG B img fw (.patchPSP level id (List.replicate (patchLen e.size) 0))
+        out := out ++ [showRes r]
+    for id in [0x62, 0x05, 0x07] do
+      for inst in [0, 1] do
+        let r ← runOpG B img fw (.extractBIOS level id inst)
+        out := out ++ [showRes r]
+        let e ← getBIOSEntryG B fw level id inst
+        match e with
+        | none => out := out ++ ["S"]
+        | some e =>
+          let r ← runOpG B img fw (.patchBIOS level id inst (List.replicate (patchLen e.size) 0))
+          out := out ++ [showRes r]
+  for (bios, level) in [(false, 1), (false, 2), (true, 1), (true, 2)] do
+    for id in [0x12, 0x62] do
+      let r ← runOpG B img fw (if bios then .entriesBIOS level id else .entriesPSP level id)
+      out := out ++ [showRes r]
+  pure (s!"ok:efs={fw.efsRange.off};p1={showTab fw.psp1 (·.entries.length)};p2={showTab fw.psp2 (·.entries.length)};" ++
+    s!"b1={showTab fw.bios1 (·.entries.length)};b2={showTab fw.bios2 (·.entries.length)};x=" ++ ",".intercalate out)
+
+open AmdTotal in
+def amdTablesG (B : Nat) (b : Bytes) : GoM String := do
+  let bit (o : Bool) : String := if o then "1" else "0"
+  let p ← parsePSPG B b
+  let q ← parseBIOSG amdC B b
+  let fp ← findPSPG B b
+  let fb ← findBIOSG amdC B b
+  -- ParseEmbeddedFirmwareStructure / FindEmbeddedFirmwareStructure end in `err`: run them on the side
+  let pe : Bool := decide (Amd.efsSize ≤ b.length) && decide ((Amd.decodeEFS (b.take Amd.efsSize)).signature = Amd.efsSignature)
+  let fe : Bool := match findEFSG b {} with | .ok _ => true | .error _ => false
+  pure ("t:" ++ bit p.isSome ++ bit q.isSome ++ bit fp.isSome ++ bit fb.isSome ++ bit pe ++ bit fe)
+
+def mfReadStr (q : String) (b : Bytes) : String × Nat :=
+  match mfTable.lookup q with
+  | some (.s S) => outcome (ManifestTotal.readG (budget b.length) S.body [] b {}) (fun p => s!"ok:n={b.length - p.2.length}")
+  | some (.c C) => outcome (ManifestTotal.containerG (budget b.length) C b {}) (fun p => s!"ok:n={b.length - p.2.length}")
+  | none => ("bad-type", 0)
+
+open AmdTotal in
+/-- the stages of `GetKeys`, each run on its own from the parsed firmware -/
+def amdKeyStages (B : Nat) (img : Bytes) (fw : Amd.PSPFirmware) (level : Nat) : String :=
+  let run {α : Type} (x : GoM α) : Option α := match x {} with | .ok (a, _) => some a | .error _ => none
+  let r := (run (extractPSPEntryG B img fw 1 0x00)).join
+  let rk := r.bind fun rb => run (PsbTotal.rootKeyG B rb)
+  let d := if rk.isSome then (run (extractPSPEntryG B img fw level 0x50)).join else none
+  let v : String := match rk, d with
+    | some k, some data =>
+      match PsbTotal.validateEntryG B [keyInfoOf (ksOfKey k)] data {} with
+      | .ok (.reach _ _, _) => "reach"
+      | .ok (.nokey, _) => "nokey"
+      | .ok (.invalid, _) => "invalid"
+      | .error _ => "E"
+    | _, _ => "-"
+  let showLen (o : Option Bytes) : String := match o with | some b => toString b.length | none => "E"
+  s!"r={showLen r};rk={match r, rk with | none, _ => "-" | some _, some _ => "ok" | some _, none => "E"};" ++
+  s!"d={if rk.isSome then showLen d else "-"};v={v}"
+
 def exec : List String → Option (String × Nat)
+  | ["amd.getkeys", h, total, level, v] => do
+    let region ← parseHex h
+    let total ← total.toNat?
+    let level ← level.toNat?
+    let verdict ← if v = "ok" then some true else if v = "err" then some false else none
+    let img := region ++ List.replicate (total - region.length) 0
+    let B := budget img.length
+    match AmdTotal.discoverG amdC B img {} with
+    | .error .err => pure ("err", 0)
+    | .error (.panic s) => pure ("panic:" ++ s.replace " " "_", 0)
+    | .error .fuel => pure ("fuel", 0)
+    | .ok (fw, m1) =>
+      let k := outcome (AmdTotal.getKeysG B (fun _ _ => verdict) img fw level m1)
+      pure (s!"k:{k.1};" ++ amdKeyStages B img fw level, k.2)
+  | ["fit.inject", h, off, rc] => do
+    let b ← parseHex h
+    let off ← off.toNat?
+    let rc ← if rc = "1" then some true else if rc = "0" then some false else none
+    pure (outcome (FitTotal.injectPipelineG (budget b.length) b off rc {})
+      (fun r => (if r.2 then "ok:" else "err:") ++ toString (fnv1a r.1).toNat))
+  | ["fit.record", h] => do
+    let b ← parseHex h
+    match FitTotal.detectBGVG b {} with
+    | .ok (v, _) =>
+      let (km, bpm) := if v = 1 then ("bgkey.Manifest", "bgbootpolicy.Manifest") else ("cbntkey.Manifest", "cbntbootpolicy.Manifest")
+      let r1 := mfReadStr km b
+      let r2 := mfReadStr bpm b
+      pure (s!"v={v};km={r1.1};bpm={r2.1}", r1.2 + r2.2)
+    | .error .err => pure ("v=E", 0)
+    | .error (.panic s) => pure ("panic:" ++ s.replace " " "_", 0)
+    | .error .fuel => pure ("fuel", 0)
+  | ["amd.firmware", h, pre, total] => do
+    let region ← parseHex h
+    let pre ← pre.toNat?
+    let total ← total.toNat?
+    let img := amdImage region pre total
+    pure (outcome (amdPipelineG (budget img.length) img {}) id)
+  | ["amd.tables", h] => do
+    let b ← parseHex h
+    match AmdTotal.findEFSG b {} with
+    | .error (.panic s) => pure ("panic:" ++ s.replace " " "_", 0)
+    | _ => pure (outcome (amdTablesG (budget b.length) b {}) id)
+  | ["manifest.read", q, h] => do
+    let b ← parseHex h
+    match ← mfTable.lookup q with
+    | .s S => pure (outcome (ManifestTotal.readG (budget b.length) S.body [] b {})
+        (fun p => s!"ok:n={b.length - p.2.length}"))
+    | .c C => pure (outcome (ManifestTotal.containerG (budget b.length) C b {})
+        (fun p => s!"ok:n={b.length - p.2.length}"))
+  | ["manifest.chipset", h] => do
+    let b ← parseHex h
+    match ← mfTable.lookup "cbnt.ChipsetACModuleInformation" with
+    | .s S => pure (outcome (ManifestTotal.parseChipsetG (budget b.length) S.body
+        (Fiano.Gen.C20MfCbnt.chipsetACModuleInformationSignature.map UInt8.ofNat) b {}) (fun p => s!"ok:n={p.1}"))
+    | .c _ => none
+  | ["manifest.memsize", q] => do
+    match ← mfTable.lookup q with
+    | .s S => pure (s!"ok:{ManifestTotal.memSize S.body}", 0)
+    | .c _ => none
   | ["fmap.read", h] => do
     let b ← parseHex h
     pure (outcome (Fmap.readG (budget b.length) b {}))
